@@ -31,6 +31,7 @@ def check_list(points, tol, slack=0, as_tuples=False):
     work = list(original)
     desc = f"supersample({[tuple(p) for p in original]}, {tol})" + \
         (" [vertices as tuples]" if as_tuples else "")
+    core.rejected(plot_utils.supersample, [[0, 0], [1], [2, 2]], 1)           # a vertex without y
     try:
         with core.watchdog(5.0):
             ret = plot_utils.supersample(work, tol)
@@ -101,11 +102,14 @@ def check_predicate(points, tol, ref_slack=1e-9):
 
 
 def _lists_chunk(args):
-    prefixes, length, tols = args
+    prefixes, length, tols = args[:3]
+    unit = args[3] if len(args) > 3 else 1       # the same lists in other units (exact powers of 2)
     part = core.Part()
     for prefix in prefixes:
         for rest in itertools.product(LATTICE, repeat=length - len(prefix)):
             points = prefix + rest
+            if unit != 1:
+                points = tuple((x * unit, y * unit) for x, y in points)
             for tol in tols:
                 bad, deleted = check_list(points, tol)
                 if length <= 4:
@@ -300,6 +304,12 @@ def run(ctx):
             prefixes = [(a, b) for a in LATTICE for b in LATTICE]
             for chunk in core.split(prefixes, 27):
                 jobs.append(("lists", (chunk, length, tols)))
+    # all 4-vertex lists again in units of 2^200 and 2^-200 (squares and cross products stay
+    # finite floats, but nothing absolute survives: 1e-9, 1e-12, float epsilon, 1.0)
+    for unit in (2.0 ** 200, 2.0 ** -200):
+        prefixes = [(a, b) for a in LATTICE for b in LATTICE]
+        for chunk in core.split(prefixes, 9):
+            jobs.append(("lists", (chunk, 4, [0.5 * unit, unit, 1.2 * unit], unit)))
     longs = long_lists(ctx)
     step = 1 if ctx.thorough else 4
     for chunk in core.split(longs[::step], 16):
@@ -326,7 +336,7 @@ def run(ctx):
         "distinct_nontrivial": cnt.get("nontrivial", 0),
         "rule": f"all vertex lists of length 0..{max_len} over the 3x3 lattice x tolerances "
                 f"{tols}; lists of length 7-9 on a line with one off-line point; all 4-point "
-                "(and 5-point) tuples for the predicate comparison; long oblique chords (1e3..1e7 "
+                "(and 5-point) tuples for the predicate comparison; the 4-vertex lists in units of 2^200 and 2^-200; long oblique chords (1e3..1e7 "
                 "units, offsets to 2e6) with vertices 0.25..4 tolerances off the chord; oversampled "
                 "curves (runs of 20..200 vertices); near-repeated vertices 2^20 / 2^30 units out "
                 "creeping off a chord; "
